@@ -95,6 +95,9 @@ FAILED = {}          # section -> error text of the last run
 def _tsx(w, src, must):
     # ---- transaction constants -------------------------------------------------------------
     t = src("crates/sip-core/src/transaction/mod.rs")
+    if os.path.exists(os.path.join(REPO, "crates/sip-core/src/transaction/consts.rs")):
+        # `pub mod consts { .. }` may live in a file of its own
+        t += src("crates/sip-core/src/transaction/consts.rs")
     for name in ("T1", "T2", "T4"):
         m = must(re.search(r"pub const %s: Duration = ([^;]+);" % name, t), name)
         w("Definition %s_ms : N := %d." % (name, duration_ms(m.group(1).strip(), name)))
